@@ -8,6 +8,6 @@ case "$src" in
   *) git -C /repo apply "$src" || { echo "cannot apply"; exit 9; } ;;
 esac
 ./check "$@"; rc=$?
-git -C /repo checkout -- . 
+git -C /repo checkout -- . ; git -C /repo clean -fdq
 echo "mut rc=$rc"
 exit $rc
